@@ -110,6 +110,18 @@ CLAIMED = {
         text="Same traces as C01. Per event TLC checks: line-of-sight length in [lMin, lMax] and CDF(l) = u4 on the closed cube (faces included); spot latitude/longitude ranges; |D - S| = l and the Earth-central angle from explicit ECEF vectors of detector and spot; cos(trajectory, normal) and the emergence angle recomputed from explicit vectors; the keep rule; that the spot azimuth about the detector nadir is phiS under one fixed convention (inferred from the first event of a series, then enforced); positions at s in {0, 1, 50, 500, random} km have the ground offset atan2(s cos b, R + s sin b); __call__ returns one entry per kept trajectory. Detector positions include both poles and the date line.",
         note="Assumes: altitude of a reported position is not observable (only latitude/longitude are returned), so the offset clause decides that part; 1e-9 inconclusive band at the keep boundary.",
         design="4/C02"),
+    "C15": dict(
+        category="model_checking",
+        technique="TLA+ spec ConfigModel.tla (unit table, input forms, acceptance/conversion, month grammar, configuration variants) with GridFile.tla register semantics for the TOML file; the plans printed by TLC (675 field x form x unit cases, 720 variants) replayed on NssConfig / create_toml / config_from_toml / the create-config CLI and validated by TraceConfig.tla",
+        text="ConfigModel.tla gives every dimensional field a kind and canonical unit, a unit table with factors, the three input forms, the month grammar and the variant space (spectrum x cloud x mode x string class x which optional section is None); MCConfigModel checks the register over all representable variants and that the acceptance table is total. Every (field, form, unit) case is executed with two values and judged by TLC (accepted iff the unit kind matches; stored value = value x factor to 4 ulp); band validation; 93 month inputs; TOML round trips of the variants (all 720 thorough / 150 quick) with boundary floats (0.1+0.2, 1e-7, pi/2, 359.999999999 deg ...) and quote / backslash / non-ASCII / newline / empty strings, compared field by field (angles <= 4 ulp, everything else exactly); six create-config CLI invocations.",
+        note="Known finding C15-none-section: a configuration whose Optional section is None cannot be written (TypeError); printed as KNOWN-FINDING, any other failure of the same clause is still a violation. TOML byte format not modelled.",
+        design="4/C15"),
+    "C16": dict(
+        category="model_checking",
+        technique="TLA+ spec ResultsFile.tla: file as register (GridFile.tla), header-contains-configuration, and the reconstructed-field invariant over the product state of (configuration, reconstruction) pairs, model-checked with a buggy reconstructor that must fail; results files of real runs validated by the stateful TraceResultsFile.tla",
+        text="'A field it reconstructs' is defined without the implementation's mapping table: g is reconstructed iff two files give different Recon(.).g; then Recon(c).g = c.g is required for every run - an invariant over the set of runs that TLC evaluates after the last reconstruction event (MCResultsFile shows it holds for a faithful reconstructor, fails for one that fills a field from the wrong card, and never judges a defaulted field). Final tables of compute() runs over variants in which EVERY configuration field varies, plus synthetic tables (2-D column, Time column, empty table), are written exactly as apps/run.py does and read back: same columns, bit-identical data (digests), every header value (FITS card precision), every representable flattened configuration value present as a HIERARCH Config card, config_from_fits succeeds for every variant.",
+        note="Assumes: values FITS cannot represent (non-finite numbers, non-ASCII or long strings) are outside the quantifier; header floats at FITS card precision (astropy truncates str(value) to 20 characters).",
+        design="4/C16"),
 }
 
 NOT_BUILT_REASON = "not claimed yet: its specification module and binding are not finished in this tree (see DESIGN.md section 9 build order); no other technique is substituted"
